@@ -628,7 +628,7 @@ func (c *Cluster) wrapFS(fs storage.FileSystem) storage.FileSystem {
 		c.errorf("wrapFS: no worker for %q", lfs.Dir)
 		return fs
 	}
-	return &faultFS{FileSystem: fs, w: w}
+	return &faultFS{FileSystem: fs, w: w, c: c}
 }
 
 // AwaitFlushed waits (polling; liveness only) until no live operator has a sealed memtable waiting to be flushed, so that
@@ -695,45 +695,40 @@ func (c *Cluster) ReadOutageHits(worker int) int {
 type faultFS struct {
 	storage.FileSystem
 	w *worker
+	c *Cluster
 }
 
-// Every file of a worker goes through faultFile. A crashed process does no I/O: db.Close is a no-op in the real code, so the
-// DKV of a killed worker keeps flushing / compacting / collecting tables in this process; its reads and writes therefore
-// BLOCK forever once the worker is dead (an error would be turned into a panic by the DKV's metadata loaders and would kill
-// the engine), and its deletions are dropped (they would remove files the next generation restored from).
+// Every file of a worker goes through faultFile. A crashed process does no I/O, but db.Close is a no-op in the real code,
+// so the DKV of a killed worker keeps flushing / compacting in this process (its I/O cannot be blocked: the DKV's flush and
+// compaction queues are process-wide). What must not happen is that such a zombie finds one of its files gone - the DKV
+// turns a failed footer read into a panic in a background goroutine, which kills the engine. So deletions are dropped when
+// they are issued BY a dead worker (its table collection would remove files the next generation restored from) or hit a
+// file IN the directory of a dead worker (cross-generation clean-up). Deletions inside a live generation are untouched.
 func (f *faultFS) wrap(path string, file storage.File) storage.File {
-	return &faultFile{File: file, w: f.w, sst: strings.HasSuffix(path, ".sst")}
+	return &faultFile{File: file, w: f.w, c: f.c, sst: strings.HasSuffix(path, ".sst")}
 }
 func (f *faultFS) Open(path string) storage.File { return f.wrap(path, f.FileSystem.Open(path)) }
 func (f *faultFS) New(path string) storage.File  { return f.wrap(path, f.FileSystem.New(path)) }
-func (f *faultFS) Copy(source string, destination string) error {
-	if f.w.isDead() {
-		select {}
-	}
-	return f.FileSystem.Copy(source, destination)
-}
 
 type faultFile struct {
 	storage.File
 	w       *worker
+	c       *Cluster
 	sst     bool
 	entries atomic.Int64 // size of the data region (0: not known yet)
 }
 
-func (f *faultFile) Write(p []byte) (int, error) {
+func (f *faultFile) keep() bool {
 	if f.w.isDead() {
-		select {}
+		return true
 	}
-	return f.File.Write(p)
-}
-func (f *faultFile) Save() error {
-	if f.w.isDead() {
-		select {}
-	}
-	return f.File.Save()
+	f.c.mu.Lock()
+	owner := f.c.byOpID[filepath.Base(filepath.Dir(f.File.URI()))]
+	f.c.mu.Unlock()
+	return owner != nil && owner.isDead()
 }
 func (f *faultFile) Delete() error {
-	if f.w.isDead() {
+	if f.keep() {
 		return nil
 	}
 	return f.File.Delete()
@@ -741,7 +736,7 @@ func (f *faultFile) Delete() error {
 func (f *faultFile) CreateDeleteFunc() func() error {
 	del := f.File.CreateDeleteFunc()
 	return func() error {
-		if f.w.isDead() {
+		if f.keep() {
 			return nil
 		}
 		return del()
@@ -749,9 +744,6 @@ func (f *faultFile) CreateDeleteFunc() func() error {
 }
 
 func (f *faultFile) ReadAt(p []byte, off int64) (int, error) {
-	if f.w.isDead() {
-		select {}
-	}
 	if !f.sst {
 		return f.File.ReadAt(p, off)
 	}
